@@ -79,7 +79,7 @@ STRIPS = ['label', 'keep', 'nowarn']
 def plan(tier, seed):
     n = 16
     q = tier == 'quick'
-    return [{'shard': i, 'of': n, 'timeout': 600 if q else 3600, 'budget_s': 42 if q else 1000} for i in range(n)]
+    return [{'shard': i, 'of': n, 'timeout': 600 if q else 6000, 'budget_s': 42 if q else 1000} for i in range(n)]
 
 # ------------------------------------------------------------------ guards from the generator's own knowledge
 
